@@ -3,7 +3,7 @@
 # tree and decides every property's obligations on it in one pass (`govc alarms`); prints one line per property that would
 # raise an alarm, or "<id>: quiet".
 set -u
-D=$1; shift
+D=$(cd "$1" && pwd); shift
 N=$(basename $D)
 S=/var/tmp/govc-harmless/$N
 rm -rf $S; mkdir -p $S
